@@ -50,6 +50,13 @@ STREAMS = {
         "rand_cwo": ("gen", ("cwo", 2000, 12)),
         "rand_n": ("gen", ("nwasf", 4000, 16)),
         "rand_np": ("gen", ("nwaspf", 2000, 12)),
+        # routed streams (ids start with "rt_"): the harness implements each model action by one of the
+        # API routes documented as equivalent (Rc::new | From<Box> | new_uninit+assume_init | From<T> | pin;
+        # clone | increment_strong_count+from_raw; drop | into_raw+decrement_strong_count; Weak into_raw/
+        # from_raw; Weak::new | default; Deref | AsRef | Borrow | as_ptr), chosen by a hash of the id
+        "rt_cwa": ("gen", ("cwaf", 3000, 14)),
+        "rt_cws": ("gen", ("cws", 2000, 12)),
+        "rt_n": ("gen", ("nwasf", 3000, 16)),
     },
     "thorough": {
         "corpus": ("corpus", None),
@@ -73,6 +80,9 @@ STREAMS = {
         "rand_cwo": ("gen", ("cwo", 20000, 16)),
         "rand_n": ("gen", ("nwasf", 60000, 20)),
         "rand_np": ("gen", ("nwaspf", 30000, 14)),
+        "rt_cwa": ("gen", ("cwaf", 30000, 16)),
+        "rt_cws": ("gen", ("cws", 20000, 14)),
+        "rt_n": ("gen", ("nwasf", 30000, 18)),
     },
 }
 
